@@ -2,8 +2,13 @@
 import warnings
 import numpy as np
 from fractions import Fraction
-from common import F, rs, vs, ms, dyadic, close, call
+from common import F, rs, vs, ms, dyadic, close, call, as_given
 from systems import gen_A
+
+
+def drain():
+    from dreye import _verif
+    return _verif.drain()
 
 
 def run(R):
@@ -16,7 +21,13 @@ def run(R):
               "itself is exact in floating point) chosen so that BOTH twins stay in the regime - asserted; s, c up to 2^+-13 - "
               "stress, recorded only. Compared pairs: gamut membership of targets with margin, range_of_solutions ends (x 1/s), "
               "fitted intensities where unique (x 1/s), predicted captures and errors (x c), default and high-accuracy solver; the "
-              "exact model's range on both twins must agree exactly. Non-trivial: lb > 0 or an active bound / out-of-gamut target.")
+              "exact model's range on both twins must agree exactly. Strata: flat gamuts (fewer sources than receptor types, 2 in 12: "
+              "membership decided by the bounded NNLS fallback instead of qhull, path counted from the hook), under-determined systems "
+              "with whole-number bounds written as integers (int64 array / list of ints, each twin written independently; 4 in 12); "
+              "all other arguments in a randomly chosen legitimate representation (integer dtype when whole, Fortran order, strided, "
+              "list). Membership is also compared for in-gamut targets towards the lower- and upper-bound corners of the gamut (margin "
+              "2^-1..2^-7 of the range), asserted row by row where both twins' captures lie in [1,100], recorded otherwise. "
+              "Non-trivial: lb > 0 or an active bound / out-of-gamut target.")
     HIGH = dict(solver="CLARABEL", tol_gap_abs=1e-10, tol_gap_rel=1e-10, tol_feas=1e-10, max_iter=500)
     stress = []
     for si in range(nsys):
@@ -25,8 +36,14 @@ def run(R):
             continue
         rng = R.rng(1, si)
         nf = int(rng.integers(2, 5)); ns = int(rng.integers(2, 7))
+        wholeb = (si % 4 == 1 and si % 12 != 1)     # whole-number bounds on an under-determined system (a caller may write them as integers)
+        flat = (si % 12 in (4, 6))  # fewer sources than receptor types: the gamut is flat (not full-dimensional) in capture space
         if si % 3 == 2:
             nf = 4; ns = nf + int(rng.integers(1, 3))
+        elif wholeb:
+            ns = nf + int(rng.integers(1, 3))
+        elif flat:
+            nf = int(rng.integers(3, 5)); ns = int(rng.integers(2, nf))
         for _ in range(50):
             A = gen_A(rng, nf, ns, lo=0.5, hi=3.0, bits=2)
             ub = dyadic(rng, 0.5, 2.5, 2, size=ns)
@@ -54,8 +71,26 @@ def run(R):
             ext = (A * (ub - lb)).sum(1)
             if np.any(ext < 1):
                 A = A * float(2.0 ** np.ceil(np.log2(1.0 / np.min(ext))))
-        base = np.zeros(nf) if rng.integers(2) else dyadic(rng, 1, 4, 1, size=nf)
+        base = np.zeros(nf) if (rng.integers(2) and not flat) else dyadic(rng, 1, 4, 1, size=nf)
         asserted = bool(si % 4 != 3)
+        if wholeb:
+            # replace the bounds by whole numbers (widths 1..4) and rescale A by a power of two (exact) to stay in the regime
+            lo_e, hi_e = (1.0, 100.0) if si % 3 == 2 else (4.0, 25.0)
+            found = False
+            for _ in range(300):
+                lbw = np.zeros(ns) if lbk == "zero" else rng.integers(1, 3, size=ns).astype(float)
+                ubw = lbw + rng.integers(1, 5, size=ns).astype(float)
+                if si % 3 == 2:
+                    ubw = rng.integers(8, 11, size=ns).astype(float); lbw = np.zeros(ns) if lbk == "zero" else np.ones(ns)
+                for j in (0, -1, 1, -2, 2, -3, -4, -5, -6):
+                    ext = (A * 2.0 ** j * (ubw - lbw)).sum(1)
+                    if np.all(ext >= lo_e) and np.all(ext <= hi_e):
+                        A, lb, ub, found = A * 2.0 ** j, lbw, ubw, True
+                        break
+                if found:
+                    break
+            R.count("whole-number-bounds:%s" % found)
+            wholeb = found
         if asserted and si % 3 == 2:
             # weak broad sources with large bounds: much larger unit changes keep both twins in the regime
             s = float(rng.choice([8.0, 16.0, 32.0])); cc = float(rng.choice([1.0, 2.0, 4.0]))
@@ -64,6 +99,8 @@ def run(R):
                 cc /= 2
         elif asserted:
             s = float(rng.choice([0.25, 0.5, 2.0, 4.0])); cc = float(rng.choice([0.25, 0.5, 2.0, 4.0]))
+            if wholeb and float(np.max(ub)) / s > 10:
+                s = float(rng.choice([2.0, 4.0]))       # keep the twin's bounds within [0.05, 10]
         else:
             s = 2.0 ** int(rng.integers(-13, 14)); cc = 2.0 ** int(rng.integers(-13, 14))
         A2 = A * (s * cc); lb2 = lb / s; ub2 = ub / s; base2 = base * cc
@@ -73,31 +110,63 @@ def run(R):
         Bout = Bin * dyadic(rng, 0.25, 3, 1, size=(3, nf)) + 3.0 * np.sign(rng.standard_normal((3, nf)))
         Bout = np.clip(Bout, 1.0, 100.0)
         B = np.vstack([Bin, Bout]); B2 = B * cc
-        c = dict(k=k, nf=nf, ns=ns, A=A, lb=lb, ub=ub, baseline=base, s=s, c=cc, asserted=asserted, B=B)
+        # membership only: in-gamut targets towards the corners of the gamut, x = lb + t (ub - lb) and x = ub - t (ub - lb) with
+        # t = 2^-1 .. 2^-7 for all sources (margin t of the range to the nearest face; exactly representable)
+        tt = np.array([2.0 ** -j for j in range(1, 8)])
+        Xc = np.vstack([lb + tt[:, None] * (ub - lb), ub - tt[[1, 4], None] * (ub - lb)])
+        Bc = Xc @ A.T + base
+        Bm = np.vstack([B, Bc]); Bm2 = Bm * cc
+        # the regime of the asserted clause: captures >= 1 (and <= 100) in BOTH twins, row by row
+        inreg = (Bm.min(1) >= 1) & (Bm2.min(1) >= 1) & (Bm.max(1) <= 100) & (Bm2.max(1) <= 100)
+        inreg[:len(B)] = True      # (the rows used so far keep their status)
+        c = dict(k=k, nf=nf, ns=ns, A=A, lb=lb, ub=ub, baseline=base, s=s, c=cc, asserted=asserted, B=B, whole_bounds=wholeb, B_corners=Bc)
         R.count("asserted:%s" % asserted); R.count("lb:" + lbk); R.count("shape:%s" % ("under" if ns > nf else ("exact" if ns == nf else "over")))
+        # representation of the arguments (implementation only): each twin is written independently; whole-number bounds mostly as integers
+        rr = R.rng(2, si)
+
+        def written(lb_, ub_, tag):
+            out = []
+            for nm, v in (("lb", lb_), ("ub", ub_)):
+                if wholeb and np.all(v == np.round(v)) and rr.random() < 0.75:
+                    ch = str(rr.choice(["int64", "list-of-int"]))
+                    R.count("given:%s:%s" % (nm, ch))
+                    out.append(v.astype(np.int64) if ch == "int64" else v.astype(np.int64).tolist())
+                else:
+                    out.append(as_given(rr, v, R, nm))
+            return out
+        (glb, gub), (glb2, gub2) = written(lb, ub, "1"), written(lb2, ub2, "2")
+        gA, gA2 = as_given(rr, A, R, "A"), as_given(rr, A2, R, "A")
+        gbase, gbase2 = as_given(rr, base, R, "baseline"), as_given(rr, base2, R, "baseline")
+        c["given"] = {nm: ("list" if isinstance(v, list) else str(v.dtype)) for nm, v in (("lb", glb), ("ub", gub), ("lb_twin", glb2), ("ub_twin", gub2))}
         nontriv = (k,) if (lbk == "pos" or True) else None
         R.case(c, nontriv, sample=asserted)
         sig = "C15"
         devs = {}
-
-        def pair(fn, *a1, a2=None, **kw):
-            return call(fn, *a1, **kw), call(fn, *a2, **kw)
         # membership
-        (st1, h1), (st2, h2) = pair(in_hull_from_A, B, A, lb, ub, a2=(B2, A2, lb2, ub2), baseline=base), (None, None)
-        (st2, h2) = call(in_hull_from_A, B2, A2, lb2, ub2, baseline=base2)
-        (st1, h1) = call(in_hull_from_A, B, A, lb, ub, baseline=base)
+        drain()
+        (st2, h2) = call(in_hull_from_A, Bm2, gA2, glb2, gub2, baseline=gbase2)
+        (st1, h1) = call(in_hull_from_A, Bm, gA, glb, gub, baseline=gbase)
+        for e in drain():
+            if e["event"] == "in_hull":
+                R.count("in_hull-path:%s" % e.get("path"))
         if st1 != "ok" or st2 != "ok":
             if asserted:
                 R.failB(dict(c, impl_error=[h1, h2]), "gamut test raised: %s / %s" % (h1, h2), sig + ":in_hull:raises")
-        elif not np.array_equal(h1, h2):
-            if asserted:
-                R.failB(dict(c, original=h1, twin=h2), "gamut membership changed under the unit change s=%g, c=%g: %s vs %s" % (s, cc, h1.tolist(), h2.tolist()), sig + ":in_hull")
-            else:
+        else:
+            h1 = np.asarray(h1); h2 = np.asarray(h2)
+            R.count("membership-rows-compared-in-regime", int(inreg.sum())); R.count("membership-corner-rows-outside-regime(recorded)", int((~inreg).sum()))
+            if not np.array_equal(h1[inreg], h2[inreg]):
+                if asserted:
+                    R.failB(dict(c, targets=Bm[inreg], original=h1[inreg], twin=h2[inreg]), "gamut membership changed under the unit change s=%g, c=%g: %s vs %s" % (s, cc, h1[inreg].tolist(), h2[inreg].tolist()), sig + ":in_hull")
+                else:
+                    devs["in_hull_changed"] = 1.0
+            elif not np.array_equal(h1, h2):
                 devs["in_hull_changed"] = 1.0
+                R.count("membership-changed-outside-regime(recorded)")
         # fits
         for mode, kw in (("default", {}), ("high", HIGH)):
-            (sa, oa) = call(lsq_linear, A, B, lb=lb, ub=ub, baseline=base, return_pred=True, **kw)
-            (sb, ob) = call(lsq_linear, A2, B2, lb=lb2, ub=ub2, baseline=base2, return_pred=True, **kw)
+            (sa, oa) = call(lsq_linear, gA, B, lb=glb, ub=gub, baseline=gbase, return_pred=True, **kw)
+            (sb, ob) = call(lsq_linear, gA2, B2, lb=glb2, ub=gub2, baseline=gbase2, return_pred=True, **kw)
             if mode == "high" and "runtime" in (sa, sb):
                 # the high-accuracy settings are the harness's choice: a solver that reports non-convergence with them does not
                 # deliver "a high-accuracy solver"; dreye reports it (RuntimeError) instead of returning a non-solution
@@ -126,8 +195,8 @@ def run(R):
         if ns > nf:
             with warnings.catch_warnings():
                 warnings.simplefilter("ignore")
-                (sa, ra) = call(range_of_solutions, Bin, A, lb, ub, baseline=base)
-                (sb, rb) = call(range_of_solutions, Bin * cc, A2, lb2, ub2, baseline=base2)
+                (sa, ra) = call(range_of_solutions, Bin, gA, glb, gub, baseline=gbase)
+                (sb, rb) = call(range_of_solutions, Bin * cc, gA2, glb2, gub2, baseline=gbase2)
             if sa == sb and sa != "ok":
                 R.count("range:both-twins-raise-%s" % sa)     # e.g. a singular column sub-matrix: the same outcome for both twins
             elif sa != "ok" or sb != "ok":
